@@ -334,13 +334,30 @@ def c_known_exclusion(c, kf):
     return None
 
 
+_FINITE_CACHE = {}
+_FINITE_SPENT = [0.0]
+FINITE_WALL_BUDGET_S = 180.0   # per run: the finite refuter only adds a model to a violation that is reported anyway
+
+
 def finite_refute(c, vc, tier):
     B = FINITE_B.get(tier, 3)
-    try:
-        run = generate(c, finite=B)
-    except Exception:
+    if _FINITE_SPENT[0] > FINITE_WALL_BUDGET_S:
         return None
-    if run.error:
+    t0 = time.time()
+    try:
+        return _finite_refute(c, vc, tier, B, t0)
+    finally:
+        _FINITE_SPENT[0] += time.time() - t0
+
+
+def _finite_refute(c, vc, tier, B, t0):
+    if (c.key, B) not in _FINITE_CACHE:
+        try:
+            _FINITE_CACHE[(c.key, B)] = generate(c, finite=B)
+        except Exception:
+            _FINITE_CACHE[(c.key, B)] = None
+    run = _FINITE_CACHE[(c.key, B)]
+    if run is None or run.error:
         return None
     # find the matching VC (same kind/label/line, same occurrence order)
     cands = [v for v in run.vcs if (v.kind, v.label, v.line) == (vc.kind, vc.label, vc.line)]
@@ -348,7 +365,9 @@ def finite_refute(c, vc, tier):
         return None
     bounds = [z3.And(n >= 0, n <= B) for n in run.lengths]
     old = SOLVE.Z3_TIMEOUT_MS
-    for cand in cands:
+    for cand in cands[:6]:
+        if _FINITE_SPENT[0] + (time.time() - t0) > FINITE_WALL_BUDGET_S:
+            return None
         s = z3.Solver()
         s.set("timeout", 10000)
         s.set("rlimit", 50000000)
